@@ -119,7 +119,16 @@ def same(a, b):
     if isinstance(a, (list, tuple)) and isinstance(b, (list, tuple)) and not (a and a[0] == 'map') :
         return len(a) == len(b) and all(same(x, y) for x, y in zip(a, b))
     if isinstance(a, dict) and isinstance(b, tuple) and b and b[0] == 'map':
-        return len(a) == len(b[1]) and all(any(same(k, k2) and same(v, v2) for k2, v2 in b[1]) for k, v in a.items())
+        if len(a) != len(b[1]):
+            return False
+        if len(a) > 64:
+            # large maps (boundary cases): scalar keys, compare through a dictionary
+            try:
+                bd = dict(b[1])
+            except TypeError:
+                return False
+            return len(bd) == len(a) and all(k in bd and same(v, bd[k]) for k, v in a.items())
+        return all(any(same(k, k2) and same(v, v2) for k2, v2 in b[1]) for k, v in a.items())
     if hasattr(a, 'type') and hasattr(a, 'data') and hasattr(b, 'type'):
         return a.type == b.type and a.data == b.data
     return type(a) == type(b) and a == b
